@@ -87,6 +87,10 @@ def fingerprint_chunk(case, dtype, rng):
     shift = 40 if wide else 16
     out = np.zeros((C, Z, Y, X), dtype=dtype)
     k = int(rng.integers(2, 5))
+    if bx * by * bz >= 70 and rng.random() < .5:
+        # tables of 66..130 entries (beyond what a cache might compare in
+        # full), as many as the block has room for
+        k = int(min(bx * by * bz, rng.integers(66, 131)))
     base = [((j + 1) << shift) | (0x0100 if j == 0 else 0x0001 if j == 1
                                   else 0x0203 + j) for j in range(k)]
     variants = [list(base)]
@@ -269,6 +273,26 @@ def check_chunk(ctx, chunk, block, dtype_name, what, via="direct"):
                 ctx.fail("spec-only decoder recovers a different array from "
                          "the encoding of a %s array: first difference at "
                          "(c,z,y,x)=%s (%s)" % (layout, bad, what))
+    # labels held in a narrower type that converts safely (uint32 / uint16
+    # / uint8 arrays handed to a uint64 or uint32 encoder)
+    if chunk.size <= 4096:
+        for narrow in ("<u4", "<u2", "<u1"):
+            nd = np.dtype(narrow)
+            if nd.itemsize >= chunk.dtype.itemsize or \
+                    int(chunk.max()) > np.iinfo(nd).max:
+                continue
+            try:
+                vbuf = bytes(enc.encode(chunk.astype(nd)))
+                vref = cseg_spec.decode(vbuf, shape, block, chunk.dtype)
+            except Exception as exc:
+                ctx.fail("encoding a %s array with a %s encoder failed or is "
+                         "not well formed: %s: %s (%s)" % (
+                             nd, dtype_name, type(exc).__name__, exc, what))
+            if not np.array_equal(vref, chunk):
+                ctx.fail("spec-only decoder recovers a different array from "
+                         "the encoding of a %s array by a %s encoder (%s)" % (
+                             nd, dtype_name, what))
+            break
     X, Y, Z = shape[3], shape[2], shape[1]
     try:
         own = enc.decode(buf, (X, Y, Z))
